@@ -90,6 +90,18 @@ func ptrOf(x any) uintptr {
 // checkResources compares Has/Get of every resource type, through all access paths, with the model.
 func checkResources(s *Sess) bool {
 	w := s.W
+	// the list of resource IDs is the caller's to keep and to change; it must always be the registration log
+	ids := ecs.ResourceIDs(w)
+	if len(ids) != len(s.ResIDs) {
+		s.fail("res.ids", "ResourceIDs lists %d types, %d were registered", len(ids), len(s.ResIDs))
+		return false
+	}
+	for i, id := range scribbledRes(ids) {
+		if id != s.ResIDs[i] {
+			s.fail("res.ids", "ResourceIDs()[%d] is not the %d-th registered resource type", i, i)
+			return false
+		}
+	}
 	for i, id := range s.ResIDs {
 		want, present := s.Res.Present[i]
 		if w.Resources().Has(id) != present {
